@@ -1,5 +1,6 @@
 (* Proofs about Model/ServerDecision.v (property C09). *)
 From ST Require Import Base.Ints Model.ServerDecision.
+From ST Require Base.Bytes.
 From Coq Require Import ZArith List Bool Lia.
 Import ListNotations.
 Open Scope Z_scope.
@@ -689,4 +690,133 @@ Proof.
       - apply negb_false_iff in Ea. rewrite Ea. reflexivity.
       - destruct (_ || _); reflexivity. }
     destruct (scion_forwarded cp lp h); reflexivity.
+Qed.
+
+(* ---------- SCION: a request whose packet authenticator does not verify ---------- *)
+
+Lemma model_meets_oracle_scion_auth : forall cp lp src h payload e,
+  bytes_ok payload -> env_ok payload e ->
+  C09_scion_auth_ok (e_spao_fail e) src cp lp h payload (e_nts_ok e) (e_path_rev e)
+    (scion_replies src (scion_decision_of cp lp h payload e)) = true.
+Proof.
+  intros cp lp src h payload e Hb He. unfold C09_scion_auth_ok.
+  destruct (e_spao_fail e) eqn:Es; cbn [andb].
+  - destruct (scion_addressed cp lp h) eqn:Ea.
+    + assert (scion_decision_of cp lp h payload e = SNoReply) as ->; [|reflexivity].
+      unfold scion_addressed in Ea. rewrite !andb_true_iff in Ea. destruct Ea as [[[H1 H2] H3] H4].
+      unfold scion_decision_of. rewrite H1, H2, H3, Es. cbn [negb].
+      apply negb_true_iff in H4. rewrite H4. reflexivity.
+    + (* not for the listener: the authenticator is not looked at *)
+      unfold C09_scion_any_ok. rewrite Ea.
+      assert (scion_replies src (scion_decision_of cp lp h payload e) = []) as ->.
+      { unfold scion_addressed in Ea. unfold scion_decision_of.
+        destruct (addr_ok (h_src_raw h)); [|reflexivity].
+        destruct (addr_ok (h_dst_raw h)); [|reflexivity].
+        destruct (h_udp_dst h =? lp); cbn [negb andb] in *.
+        - apply negb_false_iff in Ea. rewrite Ea. reflexivity.
+        - destruct (_ || _); reflexivity. }
+      destruct (scion_forwarded cp lp h); reflexivity.
+  - apply model_meets_oracle_scion_any; assumption.
+Qed.
+
+(* ---------- the reply belongs to its request ---------- *)
+
+Lemma be32_bytes : forall a b c d, 0 <= a < 256 -> 0 <= b < 256 -> 0 <= c < 256 -> 0 <= d < 256 ->
+  Z.lor (Z.lor (Z.lor (Z.shiftl a 24) (Z.shiftl b 16)) (Z.shiftl c 8)) d =
+  a * 16777216 + b * 65536 + c * 256 + d.
+Proof.
+  intros a b c d Ha Hb Hc Hd.
+  rewrite (Z.shiftl_mul_pow2 b 16), (Z.shiftl_mul_pow2 c 8) by lia.
+  rewrite (Bytes.lor_shift_add a (b * 2 ^ 16) 24) by lia.
+  replace (a * 2 ^ 24 + b * 2 ^ 16) with ((a * 256 + b) * 2 ^ 16) by lia.
+  rewrite <- (Z.shiftl_mul_pow2 (a * 256 + b) 16) by lia.
+  rewrite (Bytes.lor_shift_add (a * 256 + b) (c * 2 ^ 8) 16) by lia.
+  replace ((a * 256 + b) * 2 ^ 16 + c * 2 ^ 8) with ((a * 65536 + b * 256 + c) * 2 ^ 8) by lia.
+  rewrite <- (Z.shiftl_mul_pow2 (a * 65536 + b * 256 + c) 8) by lia.
+  rewrite (Bytes.lor_shift_add (a * 65536 + b * 256 + c) d 8) by lia.
+  lia.
+Qed.
+
+Lemma enc32_of_bytes : forall a b c d, 0 <= a < 256 -> 0 <= b < 256 -> 0 <= c < 256 -> 0 <= d < 256 ->
+  enc32 (Z.lor (Z.lor (Z.lor (Z.shiftl a 24) (Z.shiftl b 16)) (Z.shiftl c 8)) d) = [a; b; c; d].
+Proof.
+  intros a b c d Ha Hb Hc Hd. rewrite be32_bytes by assumption.
+  unfold enc32, byte_of, u8. rewrite !Z.shiftr_div_pow2 by lia.
+  change (2 ^ 24) with 16777216. change (2 ^ 16) with 65536. change (2 ^ 8) with 256. change (2 ^ 0) with 1.
+  repeat f_equal; lia.
+Qed.
+
+Lemma bytes_ok_nth : forall b i, bytes_ok b -> 0 <= nth i b 0 < 256.
+Proof.
+  intros b i Hb. destruct (Nat.lt_ge_cases i (length b)) as [Hi|Hi].
+  - unfold bytes_ok in Hb. rewrite Forall_forall in Hb. apply Hb. apply nth_In. exact Hi.
+  - rewrite nth_overflow by exact Hi. lia.
+Qed.
+
+Lemma enc32_be32_at : forall b i, bytes_ok b ->
+  enc32 (be32_at b i) = [nth i b 0; nth (i + 1) b 0; nth (i + 2) b 0; nth (i + 3) b 0].
+Proof.
+  intros b i Hb. unfold be32_at, byte_at. apply enc32_of_bytes; apply bytes_ok_nth; exact Hb.
+Qed.
+
+Lemma slice8_nth : forall (b : list Z) i, (i + 8 <= length b)%nat ->
+  slice b i 8 = [nth i b 0; nth (i + 1) b 0; nth (i + 2) b 0; nth (i + 3) b 0;
+                 nth (i + 4) b 0; nth (i + 5) b 0; nth (i + 6) b 0; nth (i + 7) b 0].
+Proof.
+  intros b i. revert b. induction i as [|i IH]; intros b Hl.
+  - do 8 (destruct b as [|? b]; [simpl in Hl; lia|]). reflexivity.
+  - destruct b as [|x b]; [simpl in Hl; lia|]. simpl in Hl.
+    unfold slice in *. cbn [skipn Nat.add nth]. apply IH. lia.
+Qed.
+
+Lemma time64_slice : forall b i, bytes_ok b -> (i + 8 <= length b)%nat ->
+  enc32 (be32_at b i) ++ enc32 (be32_at b (i + 4)) = slice b i 8.
+Proof.
+  intros b i Hb Hl. rewrite !enc32_be32_at by exact Hb. rewrite (slice8_nth b i Hl).
+  replace (i + 4 + 1)%nat with (i + 5)%nat by lia. replace (i + 4 + 2)%nat with (i + 6)%nat by lia.
+  replace (i + 4 + 3)%nat with (i + 7)%nat by lia. reflexivity.
+Qed.
+
+Lemma encode_origin_slice : forall p ext,
+  slice (encode_packet p ++ ext) 24 8 =
+  enc32 (t64_sec (origin_time p)) ++ enc32 (t64_frac (origin_time p)).
+Proof. intros p ext. reflexivity. Qed.
+
+Lemma reply_pairs : forall b e out, bytes_ok b ->
+  (e_nts_ok e = true -> e_nts_ext e <> []) ->
+  ntp_decision b e = Reply out -> reply_pairs_ok b out = true.
+Proof.
+  intros b e out Hb Hext. unfold ntp_decision.
+  destruct (decode_packet b) as [rq|] eqn:Ed; [|discriminate].
+  assert (48 <= zlen b) as Hlen.
+  { unfold decode_packet in Ed. destruct (zlen b <? packet_len) eqn:E; [discriminate|].
+    apply Z.ltb_ge in E. unfold packet_len in E. exact E. }
+  assert (Hl : (48 <= length b)%nat) by (unfold zlen in Hlen; lia).
+  assert (Htx : enc32 (t64_sec (transmit_time rq)) ++ enc32 (t64_frac (transmit_time rq)) = slice b 40 8).
+  { unfold decode_packet in Ed. destruct (zlen b <? packet_len); [discriminate|]. inversion Ed; subst rq; clear Ed.
+    cbn [transmit_time t64_sec t64_frac]. apply (time64_slice b 40 Hb). lia. }
+  assert (Hrx : enc32 (t64_sec (receive_time rq)) ++ enc32 (t64_frac (receive_time rq)) = slice b 32 8).
+  { unfold decode_packet in Ed. destruct (zlen b <? packet_len); [discriminate|]. inversion Ed; subst rq; clear Ed.
+    cbn [receive_time t64_sec t64_frac]. apply (time64_slice b 32 Hb). lia. }
+  rewrite handle_request_total.
+  destruct (_ && _) eqn:Ents; [discriminate|]. destruct (negb (validate_request rq)); [discriminate|].
+  assert (Horig : forall ext, list_eqb (slice (encode_packet (reply_packet rq e) ++ ext) 24 8) (slice b 40 8)
+                            || list_eqb (slice (encode_packet (reply_packet rq e) ++ ext) 24 8) (slice b 32 8) = true).
+  { intros ext. rewrite encode_origin_slice. unfold reply_packet. cbn [origin_time].
+    destruct (e_store_hit e) as [tx|]; [destruct (negb (time64_eqb (receive_time rq) (transmit_time rq)))|]; cbn [fst].
+    - rewrite Hrx, list_eqb_refl. apply orb_true_r.
+    - rewrite Htx, list_eqb_refl. reflexivity.
+    - rewrite Htx, list_eqb_refl. reflexivity. }
+  unfold reply_pairs_ok.
+  destruct (packet_len <? zlen b) eqn:Elong; unfold packet_len in Elong.
+  - destruct (negb (e_nts_cookie_added e)); [discriminate|]. intros [= <-].
+    rewrite Horig. cbn [andb].
+    apply Z.ltb_lt in Elong. assert (zlen b =? 48 = false) as -> by (apply Z.eqb_neq; lia).
+    cbn [andb] in Ents. apply negb_false_iff in Ents.
+    rewrite zlen_app, encode_zlen. apply Z.ltb_lt.
+    specialize (Hext Ents). destruct (e_nts_ext e); [congruence|]. unfold zlen. simpl length. lia.
+  - intros [= <-]. rewrite <- (app_nil_r (encode_packet (reply_packet rq e))) at 1 2.
+    rewrite Horig. cbn [andb]. apply Z.ltb_ge in Elong.
+    assert (zlen b =? 48 = true) as -> by (apply Z.eqb_eq; lia).
+    rewrite encode_zlen. reflexivity.
 Qed.
